@@ -7,3 +7,4 @@ import Helm.Props.C18
 import Helm.Props.C16
 import Helm.Props.C19
 import Helm.Props.C17
+import Helm.Props.C15
